@@ -1,8 +1,14 @@
+import re
 from io import TextIOBase
 from xml.sax.saxutils import XMLGenerator
 
+from xsdata.exceptions import XmlWriterError
 from xsdata.formats.dataclass.serializers.config import SerializerConfig
 from xsdata.formats.dataclass.serializers.mixins import XmlWriter
+
+ILLEGAL_XML_CHARS = re.compile(
+    "[^\u0009\u000a\u000d\u0020-\ud7ff\ue000-\ufffd\U00010000-\U0010ffff]"
+)
 
 
 class XmlEventWriter(XmlWriter):
@@ -46,6 +52,52 @@ class XmlEventWriter(XmlWriter):
             encoding=self.config.encoding,
             short_empty_elements=True,
         )
+
+    @classmethod
+    def validate_characters(cls, data: str) -> None:
+        """Raise an error if the data includes characters not allowed in xml.
+
+        Args:
+            data: The text or attribute value to validate
+
+        Raises:
+            XmlWriterError: If the data can not be written in a xml document
+        """
+        match = ILLEGAL_XML_CHARS.search(data)
+        if match:
+            raise XmlWriterError(
+                f"Invalid xml character {match.group()!r} in {data[:20]!r}"
+            )
+
+    def set_characters(self, data: str) -> None:
+        """Characters notification receiver.
+
+        Carriage returns need to be written as character references,
+        otherwise the xml parsers normalize them to new lines.
+
+        Args:
+            data: The characters data to write
+        """
+        self.validate_characters(data)
+        head, *rest = data.split("\r")
+        self.handler.characters(head)
+        for part in rest:
+            # The only way to write raw content through the xml generator
+            self.handler.ignorableWhitespace("&#13;")
+            self.handler.characters(part)
+
+    def start_element(self, name: tuple[str, str], qname: str, attrs: dict) -> None:
+        """Start element notification receiver.
+
+        Args:
+            name: The qname as tuple
+            qname: The qualified name
+            attrs: The attributes mapping
+        """
+        for value in attrs.values():
+            self.validate_characters(value)
+
+        super().start_element(name, qname, attrs)
 
     def start_tag(self, qname: str) -> None:
         """Start tag notification receiver.
